@@ -442,18 +442,76 @@ for (nm, what) in [("two_same_type", "2 entries of one reaction type"), ("two_ty
                           "remove(rtype, id) deletes every entry of that reactor under that reaction type (all duplicates), nothing else; "
                           "second application is a no-op"))
 
+OBLIGATIONS += [
+    k2("ewr.add", _k2h("react::entity_world_reactor", "entity_reactor_add_attaches_data_once"), ["C16", "C18"],
+       ["EntityReactor::add", "EntityTriggerBundle::new_bundle", "ReactCommands::with"], ["src/react/entity_world_reactor.rs", "src/react/react_commands.rs"],
+       "target symbolically live or a stale id; reactor resource symbolically present; local data any u8",
+       "add attaches exactly the given data to exactly that entity (try_insert) and queues exactly one registration, reserving no entity; "
+       "dead entity or missing reactor: false and nothing queued"),
+    k2("wr.single_system", _k2h("react::world_reactor", "world_reactor_uses_its_single_system"), ["C16"],
+       ["Reactor::run", "Reactor::add", "Reactor::remove"], ["src/react/world_reactor.rs", "src/react/react_commands.rs"],
+       "reactor resource symbolically present; system command index < 40",
+       "run queues exactly the reactor's own system command; add/remove queue exactly one (de)registration each and reserve no entity; "
+       "missing reactor: false and nothing queued"),
+]
+
+for (nm, what) in [("entity_scoped_only", "no type-wide removal reactor"), ("with_type_wide", "one type-wide removal reactor and one type-wide insertion reactor")]:
+    OBLIGATIONS.append(k2(f"rc.removal_poll_{nm}", f"{RC}rc_removal_poll_{nm}", ["C08", "C01", "C11"],
+                          ["ReactCache::schedule_removal_reactions", "ReactCache::track_removals", "collect_component_removals", "RemovalChecker::new",
+                           "schedule_entity_reaction_impl", "syscall"], RC_SRC + ["src/ecs/syscall.rs"],
+                          f"3 entities with entity-scoped removal reactors (one also with a mutation reactor); the environment reports the removal on 2 of them; {what}; reactor ids symbolic",
+                          "one poll reacts to EVERY reported removal (entity-scoped removal reactors, then the type-wide removal list) in report order, "
+                          "nothing for unreported entities; a second poll reacts to nothing (exactly once)"))
+
+OBLIGATIONS.append(k2("token.every_member", _k2h("react::reaction_trigger", "token_names_every_bundle_member"), ["C06", "C16"],
+                      ["RevokeToken::new_from", "get_reactor_types", "ReactionTriggerBundle for tuples", "ReactionTrigger::reactor_type"],
+                      ["src/react/reaction_trigger.rs", "src/react/reaction_triggers_impl.rs", "src/react/utils.rs"],
+                      "nested bundle of 5 members with one trigger named three times; reactor index < 50; the empty bundle",
+                      "a token has one entry per bundle member in order, duplicates included; the empty bundle gives an empty token"))
+
+OBLIGATIONS.append(k2("revoke.past_dead_entity", _k2h("react::react_commands", "revoke_reactor_continues_past_dead_entity"), ["C06", "C07", "C18"],
+                      ["revoke_reactor", "revoke_entity_reactor", "ReactCache::revoke_broadcast_reactor"],
+                      ["src/react/react_commands.rs", "src/react/react_cache.rs"],
+                      "token = [entity mutation trigger naming an entity that does not exist, broadcast trigger]; a neighbour reactor under the broadcast key",
+                      "the walk over the token does not stop at a trigger whose entity is gone: the following type-wide trigger is still revoked, the neighbour stays"))
+
+OBLIGATIONS.append(k2("rc.removal_poll_minimal", f"{RC}rc_removal_poll_two_entities_minimal", ["C08", "C01"],
+                      ["ReactCache::schedule_removal_reactions", "ReactCache::track_removals", "collect_component_removals", "RemovalChecker::new",
+                       "schedule_entity_reaction_impl", "syscall"], RC_SRC + ["src/ecs/syscall.rs"],
+                      "2 entities each with one entity-scoped removal reactor (ids symbolic), no type-wide reactor for the component; the environment "
+                      "reports both removals; cached buffers pre-sized",
+                      "one poll reacts to EVERY reported removal, each reaction carrying its entity and that entity's own removal reactor"))
+
+OBLIGATIONS += [
+    k2("rc.entity_event_dead_typewide", f"{RC}rc_entity_event_dead_1_1_0", ["C18", "C01", "C05"],
+       ["ReactCache::schedule_entity_event_reaction"], RC_SRC,
+       "target symbolically alive or despawned before the event is applied; 1 entity-scoped listener and 1 TYPE-WIDE (any_entity_event) listener of the event type",
+       "an entity event aimed at a despawned entity is dropped: nothing is scheduled (neither the dead target's listeners nor type-wide listeners), "
+       "no data entity is reserved, the payload is released; for a live target dispatch is exact",
+       witness=[["dead_target", "entity_event"]]),
+    k2("rc.insertion_dead_target", f"{RC}rc_insertion_dead_target", ["C18", "C14", "C01"],
+       ["ReactCache::schedule_insertion_reaction"], RC_SRC,
+       "target symbolically a live entity or an id whose entity is gone; one type-wide insertion and one type-wide mutation reactor",
+       "no insertion reaction is scheduled for an entity that no longer exists when the trigger is applied; a live entity gets exactly the type-wide insertion reactor",
+       witness=[["dead_target", "insert"]]),
+    k2("rc.mutation_dead_target", f"{RC}rc_mutation_dead_target", ["C18", "C14", "C01"],
+       ["ReactCache::schedule_mutation_reaction"], RC_SRC,
+       "target symbolically a live entity or an id whose entity is gone; one type-wide insertion and one type-wide mutation reactor",
+       "no mutation reaction is scheduled for an entity that no longer exists when the trigger is applied; a live entity gets exactly the type-wide mutation reactor",
+       witness=[["dead_target", "mutation"]]),
+]
+
 # K1 obligations superseded by lighter K2 ones or too heavy for the quick tier (measured): restrict to thorough / drop
 # Dropped after measurement (they do not finish within the thorough caps, 14 GB / 1500 s, so keeping them would make a
 # check inconclusive on the unchanged tree; their subject moves to "outside the claim" in DESIGN.md section 4):
 #  K1 autodespawn.refcount / entreactors.* / mode.prepare / revoketoken.unique_entities: superseded by the case-split K2
 #  obligations refcount.order_*, mode.*, token.unique_entities, rc.entity_event_* / rc.insertion_* (iter_rtype, count in context);
 #  gc.*, revoke.routing_*, entreactors.remove_shape*, rc.despawn_dispatch_*: written, compile, exceed the caps.
-_THOROUGH_ONLY = set()
-_DROPPED = {"entreactors.remove_two_same_type", "entreactors.remove_two_types", "rc.insertion_1_2_0_1", "rc.mutation_0_0_2_1", "syscall.spawned_self_despawn", "desp.handle_lifetime", "mode.prepare", "revoketoken.unique_entities", "autodespawn.refcount", "entreactors.dispatch", "entreactors.handles",
-            "entreactors.remove", "entreactors.witness", "gc.dead_in_front", "gc.released_and_held", "gc.all_released",
-            "revoke.routing_dead", "revoke.routing_live", "entreactors.remove_shape0", "entreactors.remove_shape1",
-            "entreactors.remove_shape2", "rc.despawn_dispatch_once", "rc.despawn_dispatch_twice"}
-OBLIGATIONS = [o for o in OBLIGATIONS if o["id"] not in _DROPPED]
+_THOROUGH_ONLY = {"entreactors.dispatch", "entreactors.remove", "entreactors.witness", "rc.insertion_1_2_0_1", "rc.mutation_0_0_2_1"}
+_DROPPED = {"autodespawn.refcount", "entreactors.handles", "revoketoken.unique_entities", "revoke.routing_dead", "revoke.routing_live",
+            "syscall.spawned_self_despawn", "rc.removal_poll_entity_scoped_only", "rc.removal_poll_with_type_wide"}
+if not os.environ.get("VERIF_INCLUDE_DROPPED"):
+    OBLIGATIONS = [o for o in OBLIGATIONS if o["id"] not in _DROPPED]
 for o in OBLIGATIONS:
     if o["id"] in _THOROUGH_ONLY:
         o["tiers"] = ["thorough"]
@@ -463,6 +521,11 @@ for o in OBLIGATIONS:
 # (it is still part of every serving property's thorough check).  Chosen from measured wall times so that each quick
 # check stays within a few minutes at 4 CBMC processes.
 _QUICK_ONLY_FOR = {
+    "rc.entity_event_dead_typewide": ["C18"], "rc.insertion_dead_target": ["C18", "C14"], "rc.mutation_dead_target": ["C18", "C14"],
+    "revoke.past_dead_entity": ["C18", "C07"],
+    "entreactors.remove_shape0": [], "entreactors.remove_shape1": [], "entreactors.remove_shape2": ["C06"],
+    "entreactors.remove_two_same_type": ["C06", "C16"], "entreactors.remove_two_types": ["C01"],
+    "gc.all_released": [], "rc.despawn_dispatch_twice": [],
     "rc.entity_event_2_1_1": ["C01", "C05"], "rc.entity_event_0_0_1": ["C01", "C05"],
     "rc.insertion_2_1_1_1": ["C01"], "rc.mutation_2_1_1_1": ["C01"],
     "rc.revoke_component_1_0_1": ["C06"], "rc.revoke_component_1_0_0": [],
